@@ -55,6 +55,21 @@ CHECKS.update({
                 design="DESIGN.md §4 C16"),
 })
 
+CHECKS.update({
+    "C10": dict(level="other",
+                text="Every panic-capable MIR site of snow's own code (Assert terminators, indexing, copy_from_slice, unwrap/expect, explicit panics) is discharged by a modular linear-constraint abstract interpreter (lenproof) under written contracts that are themselves verified on every body/impl; a handful of non-arithmetic sites are justified with recorded reasons; loops are finite `for` loops and the local call graph is acyclic. Dependency internals, allocation failure and foreign resolver objects are not analysed.",
+                technique="abstract interpretation over linear constraints on symbolic lengths (MIR, join+widening, Fourier-Motzkin entailment), modular contracts, panic-site inventory",
+                design="DESIGN.md §4 C10, Appendix A.3"),
+    "C14": dict(level="other",
+                text="Framing constants equal the specification's; length postconditions of all write/read entry points (<= 65535, <= buffer, exact +16/-16 for transport and Encrypt/DecryptAndHash) are verified on every return; every slicing obligation and length precondition inside the framing functions is discharged; length-guarded error exits construct Error::Input. The per-token sum of a handshake message length is bounded, not computed exactly.",
+                technique="lenproof postconditions (abstract interpretation over linear length constraints) + constant table + MIR guard facts",
+                design="DESIGN.md §4 C14"),
+    "C17": dict(level="other",
+                text="All three get_remote_static getters slice rs with a length that derives interprocedurally from Dh::pub_len (not dh_len), gated by Toggle::get; rs is written only by the builder and the `s` read arm, enabled only after successful decryption into rs[..pub_len]; both conversions move rs unchanged. That the decrypted bytes are the peer's key rests on AEAD/DH strength.",
+                technique="interprocedural value-provenance (leaf-source) analysis over MIR + write inventories + must-fact guards",
+                design="DESIGN.md §4 C17"),
+})
+
 PENDING_REASON = "check under construction in this session (static rule not armed yet); see DESIGN.md §4"
 
 
